@@ -3,7 +3,7 @@
    field tables: Gen/C11_Rinex{2,3}ObsFields.v (regenerated from the source on every run). *)
 From Coq Require Import Ascii String List Bool ZArith QArith Arith Lia.
 From Verif Require Import Lib.Text Lib.Decimal Lib.Fixed Model.C11_Rinex Model.C11_Check Spec.C11_RinexFormat Spec.C11_RinexFile
-     Proofs.C11_Rinex Proofs.C11_File3 Proofs.C11_Hdr3 Proofs.C11_Hdr2 Proofs.C11_File2.
+     Proofs.C11_Rinex Proofs.C11_File3 Proofs.C11_Hdr3 Proofs.C11_Hdr2 Proofs.C11_File2 Proofs.C11_Body2.
 Import ListNotations.
 Local Open Scope nat_scope.
 Local Open Scope string_scope.
@@ -196,6 +196,30 @@ Theorem obs_record_roundtrip_v2 : forall rate e q sat rest num mk cut cells s c 
 Proof. exact sat_record_v2. Qed.
 Print Assumptions obs_record_roundtrip_v2.
 
+(* ---- RINEX 2, whole file (file2: marker, # / TYPES OF OBSERV any number of types, TIME OF FIRST OBS, any number of epochs,
+   any number >= 1 of satellites per epoch with satellite-list continuation lines, records of ceil(n/5) lines incl. empty ones) *)
+
+(* parse (render f) for EVERY well-formed file model f and every sampling rate, specification model (= code after fix ffb5f24) *)
+Theorem rinex2_file_roundtrip : forall rate f, file2_ok f ->
+  parse_v2 spec_q G2.header_table G2.obs_table rate (render_file2 f) = finish_v2 (final_state2 rate f).
+Proof. exact rinex2_file_roundtrip_l. Qed.
+Print Assumptions rinex2_file_roundtrip.
+
+(* rows = one per (epoch on the grid, satellite) in file order, each with combine types (values of its record);
+   every data column has the length of the row list *)
+Theorem rinex2_file_rows : forall rate f, file2_ok f -> file_rows2 rate f <> [] ->
+  exists r, parse_v2 spec_q G2.header_table G2.obs_table rate (render_file2 f) = Some r /\
+            o_rows r = file_rows2 rate f /\
+            Forall (fun col => List.length (snd col) = List.length (o_rows r)) (o_obs r).
+Proof. exact rinex2_rows_l. Qed.
+Print Assumptions rinex2_file_rows.
+
+Theorem decimation_file_spec_v2 : forall rate f,
+  file_rows2 rate f =
+  flat_map (fun e => if on_grid rate (sec_of (e2_t e)) then epoch_rows2 None (f2_marker f) (f2_types f) e else []) (f2_epochs f).
+Proof. exact decimation_file_spec_v2_l. Qed.
+Print Assumptions decimation_file_spec_v2.
+
 (* ---- non-vacuity *)
 Example wf_cell_ex : cell_wf {| cv := VNum (-353); clli := Some 4%Z; cssi := None |}.
 Proof. repeat split; try discriminate; try (unfold fits_F; vm_compute); lia. Qed.
@@ -238,3 +262,35 @@ Proof.
 Qed.
 Example ex_rows : map r_sat (file_rows3 (Some (30 # 1)) ex_file3) = ["G01"; "E11"] /\ map r_sat (file_rows3 None ex_file3) = ["G01"; "E11"; "G01"].
 Proof. vm_compute. split; reflexivity. Qed.
+
+(* a well-formed RINEX 2 file: 7 types (G01's continuation line is EMPTY), 13 satellites (satellite-list continuation line),
+   clock offset, blank tens digit in a satellite id, second epoch 2e-4 s off a 30 s grid *)
+Definition ex_t2 (s7 : Z) (clk : option Z) : epoch_t :=
+  {| ep_y := 2018; ep_mo := 2; ep_d := 1; ep_h := 0; ep_mi := 0; ep_s7 := s7; ep_clk := clk; ep_zero := false; ep_cut := true |}.
+Definition ex_sat2 (id : string) (k : Z) (last2 : bool) : sat2 :=
+  {| s2_id := id;
+     s2_cells := (map num [k + 1; k + 2; k + 3; k + 4; k + 5]%Z ++ (if last2 then [num (k + 6); num (k + 7)]%Z else [blankcell; blankcell]))%list;
+     s2_cut := true |}.
+(* 7 observation types; G01 has no L1/L2: its continuation line is empty; 13 satellites: continuation of the satellite list *)
+Definition ex_file2 : file2 :=
+  {| f2_marker := "TEST"; f2_types := ["C1"; "C2"; "C5"; "P1"; "P2"; "L1"; "L2"]; f2_first := ex_t2 0 None;
+     f2_epochs :=
+       [ {| e2_t := ex_t2 0 (Some 123456789%Z);
+            e2_sats := ex_sat2 "G01" 11000 false ::
+                       map (fun i => ex_sat2 (String "G" (digits_fixed 2 i)) (i * 1000) true) [2;3;4;5;6;7;8;9;10;11;12;13]%Z |};
+         {| e2_t := ex_t2 300002000 None; e2_sats := [ex_sat2 "R 5" 500 true] |} ] |}.
+Lemma ex_file2_ok : file2_ok ex_file2.
+Proof.
+  unfold file2_ok, ex_file2. cbn [f2_marker f2_types f2_first f2_epochs].
+  split; [reflexivity|]. split; [vm_compute; lia|]. split; [discriminate|]. split; [repeat constructor; cbn; intuition discriminate|].
+  split; [repeat constructor|]. split; [unfold fits_int; vm_compute; lia|].
+  split; [repeat split; cbn; try lia; try (unfold fits_int, fits_F; vm_compute; lia); exact I|].
+  split; [cbn; lia|]. split; [unfold fits_int; vm_compute; lia|]. split; [unfold fits_F; vm_compute; lia|].
+  repeat constructor; cbn [e2_t e2_sats ex_t2 ep_y ep_mo ep_d ep_h ep_mi ep_s7 ep_clk]; try lia; try reflexivity;
+    try (unfold fits_int, fits_F; vm_compute; lia); try exact I; try discriminate.
+  all: try (do 3 eexists; split; [reflexivity|]; vm_compute; repeat split; try lia; auto; fail).
+  all: try (vm_compute; repeat constructor; try discriminate; try lia; fail).
+Qed.
+Example ex_rows2 : List.length (file_rows2 None ex_file2) = 14 /\ List.length (file_rows2 (Some (30 # 1)) ex_file2) = 13 /\
+  nth 1 (render_sat_v2 (ex_sat2 "G01" 11000 false)) "x" = "".
+Proof. vm_compute. repeat split; reflexivity. Qed.
